@@ -1496,6 +1496,14 @@ pub fn c12(scn: &Scenario, tr: &[Ev]) -> Vec<Violation> {
             }
         }
     }
+    // a hook's panic belongs to its actor: spawn() itself never panics (capacity 0 apart)
+    for e in tr {
+        if let EvK::SpawnPanic { actor, msg } = &e.k {
+            if !msg.contains("Mailbox capacity must be greater than 0") {
+                v(&mut out, "C12 a failing actor fails alone", format!("spawning actor {actor} panicked in the spawner's own context: {}", msg.lines().next().unwrap_or("")));
+            }
+        }
+    }
     // every other actor keeps satisfying the other properties
     let survivors: Vec<usize> = (0..ix.actors.len()).filter(|a| !victims.contains(a)).collect();
     let monitors: [(&str, fn(&Scenario, &[Ev]) -> Vec<Violation>); 7] = [("C01", c01), ("C02", c02), ("C03", c03), ("C04", c04), ("C05", c05), ("C08", c08), ("C11", c11)];
